@@ -259,6 +259,8 @@ def single_statements():
         "def dupA(x):\n    return x + 2\ndef dupB(y):\n    return y + 2\nprint(dupB(3))\n",
         "class Holder:\n    @staticmethod\n    def statFn():\n        return 1\nprint(Holder.statFn())\n",
         "class Outer:\n    class Inner:\n        innerAttr = 1\n        def innerMethod(self):\n            return 1\n",
+        "class Service:\n    async def ping(self):\n        return 1\n    async def usedAsync(self):\n        return await self.ping()\n",
+        "class Hooks:\n    @staticmethod\n    async def on_start():\n        return 2\n    @classmethod\n    async def onStop(cls):\n        return 3\nprint(Hooks.on_start)\n",
         "import os\n",
         "for loop_i in range(2):\n    pass\n",
         "print(1)\n",
